@@ -34,10 +34,17 @@ def main():
     for d in sorted(glob.glob(os.path.join(ROOT, 'seeded/*/meta.json'))):
         meta = json.load(open(d))
         muts.append(dict(name='seeded-' + os.path.basename(os.path.dirname(d)), patch=os.path.join(os.path.dirname(d), 'patch.diff'), expect=meta.get('checks_expected', [meta['property']]), kind='seeded'))
+    benign = '--benign' in args
+    if benign:
+        # property-preserving changes: every check must stay silent (exit 0) on each of them
+        muts = []
+        all_checks = True
+        for m in json.load(open(os.path.join(ROOT, 'selftest/benign/INDEX.json'))):
+            muts.append(dict(name='benign-' + m['name'], patch=os.path.join(ROOT, 'selftest/benign', m['name'] + '.diff'), expect=[], kind='benign'))
     if filt:
         muts = [m for m in muts if any(f in m['name'] for f in filt)]
     results = []
-    resfile = os.path.join(ROOT, 'selftest/results.json')
+    resfile = os.path.join(ROOT, 'selftest/benign-results.json' if '--benign' in args else 'selftest/results.json')
     old = {}
     if os.path.exists(resfile) and filt:
         old = {r['name']: r for r in json.load(open(resfile))}
@@ -62,7 +69,7 @@ def main():
             print(m['name'], 'PATCH FAILED', o[:200])
         else:
             rc, o = sh('go build ./... && go test -vet=off -count=1 ./...', cwd=copy)
-            if rc != 0:
+            if rc != 0 and m['kind'] != 'benign':
                 r['status'] = 'suite-catches-it'
             else:
                 r['status'] = 'realistic'
@@ -92,6 +99,10 @@ def main():
     else:
         with ThreadPoolExecutor(max_workers=jobs) as ex:
             list(ex.map(one, muts))
+    if benign:
+        alarms = [(r['name'], r.get('caught_by'), r.get('errors')) for r in results if r.get('caught_by') or r.get('errors') or r['status'] != 'realistic']
+        print('benign changes: %d  with an alarm or an error: %s' % (len(results), alarms))
+        return
     real = [r for r in results if r['status'] == 'realistic']
     surv = [r['name'] for r in real if not r.get('caught_by')]
     print('realistic: %d  killed: %d  survived: %s' % (len(real), len(real) - len(surv), surv))
